@@ -49,6 +49,37 @@ class Falsy(metaclass=FalsyMeta):
     pass
 
 
+import typing as _t
+
+_T = _t.TypeVar("_T")
+
+
+class Repo1(_t.Generic[_T]):
+    pass
+
+
+class Repo2(_t.Generic[_T]):
+    pass
+
+
+class Repo3(_t.Generic[_T]):
+    pass
+
+
+class Proto(_t.Protocol):
+    def run(self) -> int: ...
+
+
+class Impl1(Proto):
+    def run(self) -> int:
+        return 1
+
+
+class Impl2(Proto):
+    def run(self) -> int:
+        return 2
+
+
 def a_function(x):
     return x
 
